@@ -68,6 +68,19 @@ CHECKS = {
  "C15": ("exploration", "compaction/GC driver + read-invariance oracle around every RunValueLogGC; concurrent histories with a GC loop and delays at GC phases; deterministic open-item scenarios; race detector",
          "Driver histories with small vlog files and discard statistics, GC at ratios 0.001-0.9, normal and managed, reads compared with the model after every GC/compaction; concurrent recorded histories with GC loop and delays at gc.afterScan/gc.beforeDelete; scenarios: delete-then-GC-then-compact, Items held by an open transaction across a rewrite.",
          "Two genuine defects are listed in known_findings.json (GC resurrects a deleted key; Txn.Get item unreadable after its vlog file is rewritten).", "4/C15"),
+
+ "C07": ("exploration", "compaction driver + dump equality across close/re-open kinds + file-tree hash around read-only sessions (+ strace in the thorough tier)",
+         "Driver histories stopped with unflushed memtables, pending L0 and vlog tails; 3-5 close/re-open cycles (read-write, read-only, changed compaction settings); AllVersions dump before Close must equal the dump after Open and the model; tree hash unchanged across read-only open+read; thorough: strace rejects write-class syscalls in a read-only session.",
+         "GC only without deletes (known C15 finding).", "4/C07"),
+ "C11": ("exploration", "compaction driver + max-stored-version oracle after every kind of re-open",
+         "After clean re-open (newest data in WAL / L0 / deeper level), DropAll and re-open after DropAll: max version over an InternalAccess+AllVersions scan, then a new commit must get a larger version and be what the next read returns; the same oracle runs after Load (C24), StreamWriter.Flush (C26) and crash recovery (C08).",
+         "Normal mode only.", "4/C11"),
+ "C24": ("exploration", "driver-built sources + backup/load round trip compared with the model; concurrent history with backups taken during commits; race detector",
+         "Full backups of quiescent databases (keep=1: visible state; unbounded versions: AllVersions equals Stream.Backup's reference rules) and 3-5 step incremental chains taken while 6 committers write; the loaded chain must reproduce the final visible state; C11 oracle after Load.",
+         "Load on an idle target; last backup of a chain on the quiescent source.", "4/C24"),
+ "C25": ("exploration", "recorded concurrent history + Send recorder + per-key admissible-snapshot interval intersection; delay injection at stream hooks; race detector",
+         "Stream runs (NumGo 1-16, Prefix, ChooseKey, SinceTs) concurrent with 8 committers; for every chosen key the set of snapshot timestamps explaining what was delivered is intersected with [last ack before Orchestrate, inf); empty intersection = violation; each key once; Send never concurrent.",
+         "Default ToList with NumVersionsToKeep=1.", "4/C25"),
 }
 
 def hooks_commits():
